@@ -35,7 +35,9 @@ def _comps(p):
 def _history(subject):
     pref = st.lists(st.sampled_from(ALPHABET), min_size=0, max_size=3)
     attach = st.fixed_dictionaries({'op': st.just('attach'), 'p': pref, 'rep': st.integers(0, 14),
-                                    'val': st.sampled_from([None, None, 'pass', 'fail', 'slow-pass'])})
+                                    'val': st.sampled_from([None, None, 'pass', 'fail', 'slow-pass']),
+                                    # the validator in any legal form of "a callable returning an awaitable"
+                                    'vshape': st.sampled_from([None, None, None, 'lambda', 'object', 'async-object', 'partial', 'future', 'wrapped', 'bound'])})
     attach_dup = st.fixed_dictionaries({'op': st.just('attach'), 'k': st.integers(0, 7), 'rep': st.integers(0, 6),
                                         'val': st.sampled_from(['pass', 'fail', None])})
     detach = st.fixed_dictionaries({'op': st.just('detach'), 'p': pref, 'rep': st.integers(0, 6)})
@@ -154,7 +156,7 @@ def _run(subj, sim, ops, r):
             for i in range(len(b)):
                 b[i] = 0x5a
 
-    def do_attach(key, rep, val=None):
+    def do_attach(key, rep, val=None, vshape=None):
         scratch = None
         via_route = False
         if rep >= 11:
@@ -179,6 +181,10 @@ def _run(subj, sim, ops, r):
                         import asyncio
                         await asyncio.sleep(0.03)
                     return ValidResult.FAIL if val == 'fail' else ValidResult.PASS
+                if vshape:
+                    from ..sim.appsim import shape_callable
+                    validator = shape_callable(validator, vshape)
+                    flags.add('validator-shape')
             try:
                 if via_route:
                     sim.vl.call(lambda: sim.app.route(arg, validator)(h))
@@ -226,7 +232,7 @@ def _run(subj, sim, ops, r):
             else:
                 key = tuple(_comps(op['p']))
             try:
-                hid = do_attach(list(key), op['rep'], op.get('val'))
+                hid = do_attach(list(key), op['rep'], op.get('val'), op.get('vshape'))
                 raised = None
             except ValueError as e:
                 raised = e
